@@ -599,9 +599,18 @@ pub fn vec_program(fmt: VFmt, initial: usize, k: usize, rounds: usize, readers: 
     vec_program_g(fmt, initial, k, rounds, readers, locks_only, false)
 }
 
+pub fn vec_program_g(fmt: VFmt, initial: usize, k: usize, rounds: usize, readers: usize, locks_only: bool, grower: bool) -> Program {
+    vec_program_n(fmt, initial, k, rounds, readers, locks_only, grower, false)
+}
+
 /// `grower`: a further thread that makes the data file grow (it queues for the mmap and
 /// file write locks) on a region of its own.
-pub fn vec_program_g(fmt: VFmt, initial: usize, k: usize, rounds: usize, readers: usize, locks_only: bool, grower: bool) -> Program {
+///
+/// `neighbour`: another region is created directly behind the vector's data region after the
+/// initial flush, so that growth beyond the reservation relocates the region instead of
+/// extending it in place.
+#[allow(clippy::too_many_arguments)]
+pub fn vec_program_n(fmt: VFmt, initial: usize, k: usize, rounds: usize, readers: usize, locks_only: bool, grower: bool, neighbour: bool) -> Program {
     fn value(i: usize) -> u32 {
         (i as u32).wrapping_mul(2654435761) | 1
     }
@@ -661,8 +670,18 @@ pub fn vec_program_g(fmt: VFmt, initial: usize, k: usize, rounds: usize, readers
     let p = 4096usize;
     let class: &'static str = match fmt {
         VFmt::Bytes | VFmt::ZeroCopy => {
-            if (initial + k) * 4 + 32 <= 4096 { "raw:append_in_reserve" } else if (initial + k) * 4 > 1 << 20 { "raw:file_growth" } else { "raw:grows_region" }
+            if (initial + k) * 4 + 32 <= 4096 {
+                "raw:append_in_reserve"
+            } else if (initial + k) * 4 > 1 << 20 {
+                "raw:file_growth"
+            } else if neighbour {
+                "raw:relocates_region"
+            } else {
+                "raw:grows_region"
+            }
         }
+        // (shapes with a neighbour avoid the partial-page re-encode, finding F12)
+        _ if neighbour && (initial % p == 0 || initial % p + k < p) => "compressed:relocates_region",
         _ => {
             if initial % p != 0 && initial % p + k >= p {
                 "compressed:reencode_partial_page"
@@ -674,7 +693,8 @@ pub fn vec_program_g(fmt: VFmt, initial: usize, k: usize, rounds: usize, readers
         }
     };
     let name = format!(
-        "vec {fmt:?} initial={initial} push {k} x{rounds} || {readers} reader(s){}",
+        "vec {fmt:?} initial={initial} push {k} x{rounds}{} || {readers} reader(s){}",
+        if neighbour { " (region has a neighbour)" } else { "" },
         if grower { " || file grower" } else { "" }
     );
     Program {
@@ -694,6 +714,11 @@ pub fn vec_program_g(fmt: VFmt, initial: usize, k: usize, rounds: usize, readers
                         v.push(value(i));
                     }
                     v.flush().expect("initial flush");
+                    if neighbour {
+                        let nb = w.db.create_region_if_needed("nb").expect("create nb");
+                        nb.write(&pattern(11, 0, 100)).expect("write nb");
+                        w.db.flush().expect("flush nb");
+                    }
                     let mut bodies: Vec<(String, Body)> = Vec::new();
                     let clones: Vec<_> = (0..readers).map(|_| (v.read_only_clone(), v.read_only_boxed_clone())).collect();
                     let writer: Body = Box::new(move |_w: &World| {
@@ -990,6 +1015,27 @@ pub fn plan(property: &str, tier: &str) -> Vec<Job> {
         }
         "C09" => {
             let p = 4096;
+            // vectors whose data region has to relocate when it grows
+            let reloc: Vec<(VFmt, usize, usize, usize)> = if quick {
+                vec![(VFmt::Bytes, 1000, 2000, 1), (VFmt::Pco, p, 2 * p, 1)]
+            } else {
+                vec![
+                    (VFmt::Bytes, 1000, 2000, 1),
+                    (VFmt::Bytes, 1000, 2000, 2),
+                    (VFmt::ZeroCopy, 1000, 2000, 1),
+                    (VFmt::Pco, p, 2 * p, 1),
+                    (VFmt::Pco, 2 * p, p, 2),
+                    (VFmt::Lz4, p, 2 * p, 1),
+                ]
+            };
+            for (fmt, initial, k, readers) in reloc {
+                jobs.push(Job {
+                    program: vec_program_n(fmt, initial, k, 1, readers, false, false, true),
+                    bound: if quick { 2 } else { 3 },
+                    writer_preference: true,
+                    max_execs: if quick { 500 } else { 30000 },
+                });
+            }
             let shapes: Vec<(VFmt, usize, usize, usize, usize)> = if quick {
                 vec![
                     (VFmt::Bytes, 3, 2, 2, 1),
